@@ -59,6 +59,10 @@ CLAIMED = {
             "differential: accepted texts split at item boundaries into random include trees (depth 1..12, cwd / absolute / search path) vs the flat text; error position after an include; failure histories followed by a succeeding include; resource and include-depth balance",
             "Split points come from the reference model; unreadable files cannot be produced as root.",
             "metamorphic/differential property-based testing (Hypothesis split trees, failure histories)"),
+    "C14": ("exploration", "5.C14",
+            "model-based: schemas with generated callback placement (declared or registered by schema path) x texts x every choice of the failing invocation; exact invocation log, verdict and tree compared with the language model; veto/rewrite of by-name setters enumerated",
+            "The model mirrors the code's extra validation calls at list/section close to predict invocation numbers.",
+            "model-based property testing (Hypothesis) with exhaustive failing-invocation sweep per text"),
 }
 PENDING = {}
 props = [json.loads(l) for l in open(os.path.join(V, "properties.jsonl"))]
